@@ -466,6 +466,124 @@ func shellFacts(ws *packages.Package, f *facts) {
 			return true
 		})
 	}
+	// 6b. the same fact, structurally: the loop that receives from sendChan in a select never returns except in its
+	// ctx.Done() case, and it (or a method it calls) writes to the client through the Sender field and asks for the
+	// disconnection when that fails - whatever the shape of the failure branch (a helper, a flag, an early `continue`)
+	if !f.senderDiscards {
+		byName := map[string]*ast.FuncDecl{}
+		for _, fd := range funcs {
+			byName[fd.Name.Name] = fd
+		}
+		callsSenderField := func(body ast.Node) bool {
+			found := false
+			ast.Inspect(body, func(m ast.Node) bool {
+				if c, ok := m.(*ast.CallExpr); ok {
+					if se, ok := c.Fun.(*ast.SelectorExpr); ok {
+						if sig, ok := info.TypeOf(se).(*types.Named); ok && sig.Obj().Name() == "Sender" {
+							found = true
+						}
+					}
+				}
+				return true
+			})
+			return found
+		}
+		for _, fd := range funcs {
+			ast.Inspect(fd.Body, func(n ast.Node) bool {
+				fs, ok := n.(*ast.ForStmt)
+				if !ok {
+					return true
+				}
+				for _, st := range fs.Body.List {
+					sel, ok := st.(*ast.SelectStmt)
+					if !ok {
+						continue
+					}
+					recvSend, okLoop := false, true
+					var sendBody []ast.Stmt
+					for _, cc := range sel.Body.List {
+						c := cc.(*ast.CommClause)
+						from := ""
+						var e ast.Expr
+						switch v := c.Comm.(type) {
+						case *ast.ExprStmt:
+							e = v.X
+						case *ast.AssignStmt:
+							if len(v.Rhs) == 1 {
+								e = v.Rhs[0]
+							}
+						}
+						if ue, ok := e.(*ast.UnaryExpr); ok && ue.Op == token.ARROW {
+							switch x := ue.X.(type) {
+							case *ast.SelectorExpr:
+								from = x.Sel.Name
+							case *ast.CallExpr:
+								if se, ok := x.Fun.(*ast.SelectorExpr); ok {
+									from = se.Sel.Name + "()"
+								}
+							}
+						}
+						if from == "sendChan" {
+							recvSend = true
+							sendBody = c.Body
+						}
+						if from != "Done()" {
+							for _, b := range c.Body {
+								ast.Inspect(b, func(m ast.Node) bool {
+									switch m.(type) {
+									case *ast.FuncLit:
+										return false
+									case *ast.ReturnStmt:
+										okLoop = false
+									case *ast.BranchStmt:
+										if m.(*ast.BranchStmt).Tok == token.BREAK || m.(*ast.BranchStmt).Tok == token.GOTO {
+											okLoop = false
+										}
+									}
+									return true
+								})
+							}
+						}
+					}
+					if !recvSend || !okLoop {
+						continue
+					}
+					// the write and the request for disconnection: in the case body or in a method of the shell it calls
+					writes, asks := false, false
+					check := func(body ast.Node) {
+						if callsSenderField(body) {
+							writes = true
+						}
+						ast.Inspect(body, func(m ast.Node) bool {
+							if c, ok := m.(*ast.CallExpr); ok {
+								if se, ok := c.Fun.(*ast.SelectorExpr); ok && senders[se.Sel.Name] {
+									asks = true
+								}
+							}
+							return true
+						})
+					}
+					for _, b := range sendBody {
+						check(b)
+						ast.Inspect(b, func(m ast.Node) bool {
+							if c, ok := m.(*ast.CallExpr); ok {
+								if se, ok := c.Fun.(*ast.SelectorExpr); ok {
+									if h := byName[se.Sel.Name]; h != nil && h != fd {
+										check(h.Body)
+									}
+								}
+							}
+							return true
+						})
+					}
+					if writes && asks {
+						f.senderDiscards = true
+					}
+				}
+				return true
+			})
+		}
+	}
 	// 7. recover() anywhere in the shell's methods
 	for _, fd := range funcs {
 		if !recvIs(fd) {
